@@ -34,6 +34,21 @@ partial def edits (view : G → GraphI) (g : G) (acc : List String) : List Strin
     | _, _ => "bad-op"
   | _ => "bad-op"
 
+/-- parse `(c i j | s i j)*` -/
+def parseTOps : List String → Option (List TOp)
+  | [] => some []
+  | "c" :: i :: j :: rest => do
+    let i ← nat? i
+    let j ← nat? j
+    let r ← parseTOps rest
+    pure (TOp.c i j :: r)
+  | "s" :: i :: j :: rest => do
+    let i ← nat? i
+    let j ← nat? j
+    let r ← parseTOps rest
+    pure (TOp.s i j :: r)
+  | _ => none
+
 def listFn {α : Type} (l : List α) (d : α) : Nat → α := fun k => l.getD k d
 
 def handle : List String → String
@@ -116,6 +131,14 @@ def handle : List String → String
       | some i, some j => dump (pure (ofSpec (contract g i j)))
       | _, _ => "bad-op"
     | _ => "bad-op"
+  -- a sequence of Contract / SplitEdge applied in place: the presentation of the graph before and after every step
+  | "tseq" :: g => match parse g with
+    | some (g, ops) => match parseTOps ops with
+      | some ops => match tseq tstepSpec g ops with
+        | .ok gs => " ; ".intercalate ((g :: gs).map fun h => dump (pure (ofSpec h)))
+        | _ => "panic"
+      | none => "bad-op"
+    | none => "bad-op"
   | "random" :: n :: _p :: _seed :: bits => match nat? n, nats? bits with
     | some n, some b => dumpD (randomGraph n (listFn (b.map (· != 0)) false))
     | _, _ => "bad-op"
